@@ -130,6 +130,15 @@ func (file *lFile) Name() string {
 	return ""
 }
 
+// flushPending writes out what a buffered writer holds: before a read, so that the read sees it
+// and the bytes land where they were written (the stream turns from writing to reading)
+func (file *lFile) flushPending() error {
+	if bwriter, ok := file.writer.(*bufio.Writer); ok && bwriter.Buffered() > 0 {
+		return bwriter.Flush()
+	}
+	return nil
+}
+
 func (file *lFile) AbandonReadBuffer() error {
 	if file.Type() == lFileFile && file.reader != nil {
 		_, err := file.fp.Seek(-int64(file.reader.Buffered()), 1)
@@ -377,6 +386,9 @@ func fileReadAux(L *LState, file *lFile, idx int) int {
 	}
 	var err error
 	top := L.GetTop()
+	if err = file.flushPending(); err != nil {
+		goto errreturn
+	}
 	for i := idx; i <= top; i++ {
 		switch lv := L.Get(i).(type) {
 		case LNumber:
@@ -583,6 +595,9 @@ func fileLinesIter(L *LState) int {
 	if file.reader == nil {
 		L.RaiseError("%s is opened for only writing.", file.Name())
 	}
+	if err := file.flushPending(); err != nil {
+		L.RaiseError(err.Error())
+	}
 	buf, err, iseof := readBufioLine(file.reader)
 	if iseof {
 		L.Push(LNil)
@@ -707,6 +722,9 @@ func ioLinesIter(L *LState) int {
 	toclose := true
 	if file.reader == nil {
 		L.RaiseError("%s is opened for only writing.", file.Name())
+	}
+	if err := file.flushPending(); err != nil {
+		L.RaiseError(err.Error())
 	}
 	buf, err, iseof := readBufioLine(file.reader)
 	if iseof {
